@@ -63,13 +63,9 @@ def honest (M : MetaCodec) : Nat → List Seg → Nat → Bytes → Prop
 
 /-- The in-order check of `Session.inputData` on the stream transport: a data-bearing segment is
     accepted only if it carries the next sequence number; anything else is an error that ends the
-    session (`none`). `seqOf` reads the sequence number off the metadata. -/
-def inOrder (seqOf : Md → Nat) : Nat → List (Md × Bytes) → Option (List Bytes)
-  | _, [] => some []
-  | next, (m, p) :: rest =>
-    if seqOf m = next then (inOrder seqOf (next + 1) rest).map (p :: ·) else none
-
-/-- what the application can read: the payloads accepted before the first out-of-order segment -/
+    session. `seqOf` reads the sequence number off the metadata. What the application can read: the
+    payloads accepted before the first out-of-order segment. (`Model/TamperKey.sessionRead` is the same
+    check inside the dispatch by session id and the direction test.) -/
 def inOrderRead (seqOf : Md → Nat) : Nat → List (Md × Bytes) → List Bytes
   | _, [] => []
   | next, (m, p) :: rest => if seqOf m = next then p :: inOrderRead seqOf (next + 1) rest else []
